@@ -1,7 +1,139 @@
 import Mustache.Basic.LineIO
+import Mustache.Model.Systems
+/-!
+Driver `systems` (C14). Reads, per case,
+
+    case <id>
+    op <op line>                 (grammar of harness/systems_driver.cpp)
+    impl <outcome> <events>      (what the implementation did on that op)
+
+runs the model on the op, and judges the IMPLEMENTATION's observation:
+
+* `outcome` : implementation outcome = model outcome (ok / invalid_state / cannot_reorder / aborted)
+* `events`  : per object, the implementation's callbacks = the model's callbacks (the interleaving between
+              objects is not compared: `std::sort` is not stable)
+* `order`   : on `update`: the implementation's sequence of updated systems satisfies `validUpdateB` for the
+              ordering problem of the last successful reorder, with "active" read off the implementation's
+              own callbacks; every present system that is active was updated exactly once
+* `life`    : every callback the implementation made is allowed after that object's previous callback
+* `removed` : no callback on a removed object
+
+Output, one line per op:
+    <case> <idx> outcome=<ok|DIFF> events=<ok|DIFF> order=<ok|BAD|na> life=<ok|BAD> removed=<ok|BAD> | model <outcome> <events by object>
+-/
 namespace Mustache.Driver.Systems
-/-- stub, replaced when the model lands -/
+open Mustache Mustache.Systems
+
+def cbName : Cb → String
+  | .create => "create" | .configure => "configure" | .start => "start" | .update => "update"
+  | .pause => "pause" | .stop => "stop" | .resume => "resume" | .destroy => "destroy"
+
+def cbOfName? : String → Option Cb
+  | "create" => some .create | "configure" => some .configure | "start" => some .start
+  | "update" => some .update | "pause" => some .pause | "stop" => some .stop
+  | "resume" => some .resume | "destroy" => some .destroy | _ => none
+
+def outcomeName : Outcome → String
+  | .ok => "ok" | .invalidState => "invalid_state" | .cannotReorder => "cannot_reorder" | .aborted => "aborted"
+
+def parseOp (ws : List String) : Option Op :=
+  match ws with
+  | ["group", g, p] => do some (.setGroup (← g.toNat?) (← p.toInt?))
+  | ["add", n, pre, g, p, after, before] => do
+      some (.add (← n.toNat?) ((← pre.toNat?) != 0)
+        { before := ← csvNats? before, after := ← csvNats? after, group := ← g.toNat?, prio := ← p.toInt? })
+  | ["remove", n] => do some (.remove (← n.toNat?))
+  | ["init"] => some .init
+  | ["update"] => some .update
+  | ["pause", n] => do some (.ext (← n.toNat?) .pause)
+  | ["resume", n] => do some (.ext (← n.toNat?) .resume)
+  | ["stop", n] => do some (.ext (← n.toNat?) .stop)
+  | ["end"] => some .teardown
+  | _ => none
+
+def parseEvents (s : String) : Option (List Ev) :=
+  if s = "-" || s = "" then some [] else
+  (s.splitOn ",").mapM fun tok =>
+    match tok.splitOn ":" with
+    | [u, c] => do some ⟨← u.toNat?, ← cbOfName? c⟩
+    | _ => none
+
+/-- events grouped by object (ascending uid), order inside an object kept -/
+def byObject (evs : List Ev) : List (Nat × List Cb) :=
+  let uids := (evs.map (·.uid)).eraseDups.mergeSort (fun a b => decide (a ≤ b))
+  uids.map fun u => (u, traceOf u evs)
+
+def showByObject (evs : List Ev) : String :=
+  let l := byObject evs
+  if l.isEmpty then "-" else
+  " ".intercalate (l.map fun (u, cs) => s!"{u}:" ++ "+".intercalate (cs.map cbName))
+
+structure DState where
+  m : Mgr := {}
+  /-- last callback the IMPLEMENTATION made on each object -/
+  implLast : List (Nat × Cb) := []
+  caseId : String := "0"
+  idx : Nat := 0
+  pending : Option Op := none
+  bad : Nat := 0
+
+def implActive (last : List (Nat × Cb)) (u : Nat) : Bool :=
+  match last.lookup u with
+  | some .start | some .update | some .resume => true
+  | _ => false
+
+/-- feed the implementation's callbacks of one op through the per-object acceptor -/
+def lifeStep (last : List (Nat × Cb)) (evs : List Ev) : List (Nat × Cb) × Bool :=
+  evs.foldl (fun (acc : List (Nat × Cb) × Bool) e =>
+    (setAssoc e.uid e.cb acc.1, acc.2 && allowedNext (acc.1.lookup e.uid) e.cb)) (last, true)
+
+/-- the order oracle on one implementation `update` -/
+def orderVerdict (m : Mgr) (last' : List (Nat × Cb)) (implEvs : List Ev) : Bool :=
+  let us := (implEvs.filter (·.cb == .update)).map (·.uid)
+  if m.dead || !m.wasInit then us.isEmpty else
+  let nodes? := us.mapM fun u => m.snapSrc.find? (·.id == u)
+  match nodes? with
+  | none => false
+  | some uns =>
+    validUpdateB m.snapSrc (fun n => implActive last' n.id) uns
+    && m.systems.all (fun s => !implActive last' s.uid || us.count s.uid == 1)
+
+def judge (st : DState) (op : Op) (implOut : String) (implEvs : List Ev) : DState × String :=
+  let (m', out, evs) := step st.m op
+  let outcomeOk := outcomeName out == implOut
+  let eventsOk := byObject evs == byObject implEvs
+  let (last', lifeOk) := lifeStep st.implLast implEvs
+  let removedOk := implEvs.all fun e => !m'.removed.contains e.uid
+  let order :=
+    match op with
+    | .update => if implOut == "ok" then (if orderVerdict st.m last' implEvs then "ok" else "BAD") else "na"
+    | _ => "na"
+  let f := fun (b : Bool) (bad : String) => if b then "ok" else bad
+  let line := s!"{st.caseId} {st.idx} outcome={f outcomeOk "DIFF"} events={f eventsOk "DIFF"} order={order} " ++
+    s!"life={f lifeOk "BAD"} removed={f removedOk "BAD"} | model {outcomeName out} {showByObject evs}"
+  let nbad := (if outcomeOk && eventsOk && lifeOk && removedOk && order != "BAD" then 0 else 1)
+  ({ st with m := m', implLast := last', idx := st.idx + 1, pending := none, bad := st.bad + nbad }, line)
+
+def handle (st : DState) (l : String) : IO DState := do
+  match words l with
+  | ["case", id] => return { st with m := {}, implLast := [], caseId := id, idx := 0, pending := none }
+  | "op" :: ws =>
+    match parseOp ws with
+    | some op => return { st with pending := some op }
+    | none => do IO.println s!"{st.caseId} {st.idx} PARSE-ERROR op {l}"; return { st with bad := st.bad + 1 }
+  | ["impl", out, evs] =>
+    match st.pending, parseEvents evs with
+    | some op, some implEvs => do
+      let (st', line) := judge st op out implEvs
+      IO.println line
+      return st'
+    | _, _ => do IO.println s!"{st.caseId} {st.idx} PARSE-ERROR impl {l}"; return { st with bad := st.bad + 1 }
+  | _ => do IO.println s!"{st.caseId} {st.idx} PARSE-ERROR {l}"; return { st with bad := st.bad + 1 }
+
+/-- `driver systems` : judge implementation observations (see the module doc). -/
 def main (_args : List String) : IO UInt32 := do
-  IO.eprintln "driver: model Systems not built yet"
-  return 2
+  let st ← foldStdin handle {}
+  (← IO.getStdout).flush
+  return (if st.bad == 0 then 0 else 1)
+
 end Mustache.Driver.Systems
